@@ -495,6 +495,38 @@ def finite_clause(model, rep, funcs):
     rep.floor("FIN", 2, "(ZNCC/NCC and FSC landscapes)")
 
 
+# --------------------------------------------------------------------------- clause 7: the refinement is bounded by the caller's own limit
+def refinement_callers_clause(model, rep, funcs):
+    """`upsample(landscape, landscape, max_shifts, pad)` clips the refined shift to its third argument: every caller must hand over the limit it was given
+    (not the landscape's half width, which is ceil(max_shifts))."""
+    n = 0
+    for a in (BZ + "subpixel_ncc", BZ + "subpixel_zncc", BF + "subpixel_fsc"):
+        f = funcs.get(a)
+        if f is None:
+            continue
+        for c in calls_in(f):
+            if (dotted(c.func) or "").split(".")[-1] != "upsample":
+                continue
+            n += 1
+            rep.instance("LIMIT", f.loc(c))
+            arg = c.args[2] if len(c.args) > 2 else None
+            for k in c.keywords:
+                if k.arg == "max_shifts":
+                    arg = k.value
+            ok = isinstance(arg, ast.Name) and arg.id == "max_shifts" and "max_shifts" in f.param_names()
+            if ok:
+                # re-bindings of max_shifts inside the function may only broadcast a scalar to a tuple
+                for st in walk_no_nested(f.node):
+                    if isinstance(st, ast.Assign) and any(isinstance(t, ast.Name) and t.id == "max_shifts" for t in st.targets):
+                        v = norm_src(st.value).replace(" ", "")
+                        if not (v.startswith("(max_shifts,)*") or v.startswith("tuple(max_shifts)")):
+                            ok = False
+            rep.ob("LIMIT", a, "the refinement is clipped to the caller's own max_shifts (fractional limits are respected)", ok,
+                   f"upsample(..., {norm_src(arg) if arg is not None else None}, ...)" + ("" if ok else ": the permitted range handed to the refinement is not the max_shifts "
+                   "argument; with the landscape half width (ceil(max_shifts)) a limit of 0.3 px allows shifts up to 1 px"), node=c, fn=f, clause="1 refinement")
+    rep.floor("LIMIT", 3, "(ncc, zncc and fsc refinements)")
+
+
 def check(model, rep, tier):
     rep.decided += ["C05.1 refined shift stays within +-max_shifts for every integer peak / refined index (affine forms with rounding atoms, "
                     "Fourier-Motzkin); mesh encoder/decoder identity", "C05.2 ZNCC/NCC crop: pad_width_eff >= 1, symmetric, half-width <= max_shifts",
@@ -510,3 +542,4 @@ def check(model, rep, tier):
     layout_clause(model, rep, funcs)
     normalisation_clause(model, rep, funcs)
     finite_clause(model, rep, funcs)
+    refinement_callers_clause(model, rep, funcs)
